@@ -36,6 +36,13 @@ def _mk(kind, m, pre=''):
         fi, fo = (O.ellipse_in, O.ellipse_out) if kind == 'ellipse' else (O.rect_in, O.rect_out)
         return (cls(PixCoord(cx, cy), w, h, angle=ang, meta=meta, visual=vis),
                 lambda px, py: fi(px, py, cx, cy, w, h, c, s), lambda px, py: fo(px, py, cx, cy, w, h, c, s))
+    if kind == 'polygon-origin':
+        vx = [cx] + [cx + m.real(f'{pre}ex{i}') for i in (1, 2)]
+        vy = [cy] + [cy + m.real(f'{pre}ey{i}') for i in (1, 2)]
+        ox, oy = m.real(pre + 'ox'), m.real(pre + 'oy')
+        return (PolygonPixelRegion(PixCoord(np.array([x - ox for x in vx], dtype=dt), np.array([y - oy for y in vy], dtype=dt)),
+                                   origin=PixCoord(ox, oy), meta=meta, visual=vis),
+                lambda px, py: O.triangle_in(px, py, vx, vy), lambda px, py: O.triangle_out(px, py, vx, vy))
     if kind == 'polygon':
         vx = [cx] + [cx + m.real(f'{pre}ex{i}') for i in (1, 2)]
         vy = [cy] + [cy + m.real(f'{pre}ey{i}') for i in (1, 2)]
@@ -231,7 +238,7 @@ def h_translate(kind, mode, n, m):
             m.require(f'mask value {list(idx)} unchanged by the translation', da[idx] == db[idx])
 
 
-SLOW_DIRECT = ('ellipse', 'annulus-ellipse', 'polygon')
+SLOW_DIRECT = ('ellipse', 'annulus-ellipse', 'polygon', 'polygon-origin')
 
 
 def h_frame_lemma(m):
@@ -256,7 +263,7 @@ def harnesses(tier):
     P = functools.partial
     q = tier == 'quick'
     hs = []
-    kinds = ['circle', 'ellipse', 'rectangle', 'polygon', 'regpoly', 'point', 'text', 'line', 'annulus-circle',
+    kinds = ['circle', 'ellipse', 'rectangle', 'polygon', 'polygon-origin', 'regpoly', 'point', 'text', 'line', 'annulus-circle',
              'annulus-ellipse', 'annulus-rectangle']
     for k in kinds:
         for au in (['deg'] if q else ['deg', 'rad', 'arcmin']):
